@@ -36,7 +36,8 @@ impl vcf::variant::record::Ids for Ids<'_> {
             Box::new(
                 self.0
                     .split(|&b| b == DELIMITER)
-                    .map(|buf| str::from_utf8(buf).unwrap()), // TODO
+                    // SAFETY: The IDs are validated when the record is indexed.
+                    .map(|buf| str::from_utf8(buf).unwrap()),
             )
         }
     }
